@@ -9,8 +9,13 @@ EXPLANATION = ("char-set extraction from MIR: the set of character constants a f
                "character = the special set of the in-quote loop of both scanners = the special set of Unquote::next = "
                "{'\"', '\\\\'}, all using the evaluated QUOTE_ESCAPE_CHAR; attr() writes a value bare only if every "
                "char is ASCII alphanumeric and no structural character of the parser is alphanumeric; the separator "
-               "characters written between links / attributes / key and value are the characters the parser splits on")
-NOT_DECIDED = "Not decided: the round trip itself (value equality over documents)."
+               "characters written between links / attributes / key and value are the characters the parser splits on.  "
+               "C16.4-6: attr_quoted, the in-quote loops of both scanners and Unquote::next (Quoted state) are run in the abstract "
+               "interpreter with logging models for the sink and for Chars::next; per path through one step the characters "
+               "written / consumed / yielded are compared with the quoted-string transducer as a function of the class of the "
+               "character read (quote, backslash, other)")
+NOT_DECIDED = ("Not decided: the round trip itself as an equality over whole documents (key trimming, whitespace around "
+               "values, link targets); decided are the per-character transducers of the writer, both scanners and Unquote.")
 ASSUMPTIONS = []
 
 QUOTE, ESC = ord('"'), ord("\\")
@@ -148,6 +153,14 @@ def check(env, rep, tier):
         wl = written_chars(prog, bodies[WL])
         rep.ob("C16.3", "writer|link-sep", lsep in wl and ord("<") in wl and ord(">") in wl,
                "link() does not write the link separator and the angle brackets (writes %s)" % [chr(c) for c in wl], site(bodies[WL]))
+        # ---- C16.4-6 per-character transducers (semantic, by abstract interpretation)
+        import linkfmt
+        linkfmt.check_writer(prog, rep, bodies[WQ], asep if asep is not None else ord(";"), site(bodies[WQ]))
+        for nm, tag in ((P, "link-scanner"), (A, "attr-scanner")):
+            info = interp.BodyInfo(bodies[nm])
+            inner = [h for h in info.loops if info.parent_loop.get(h) is not None]
+            linkfmt.check_scanner(prog, rep, bodies[nm], inner, tag, site(bodies[nm]))
+        linkfmt.check_unquote(prog, rep, bodies[U], site(bodies[U]))
         acalls = [(bb["term"].get("resolved") or bb["term"].get("callee") or {}) for bb in bodies[A]["blocks"] if bb["term"]["k"] == "call" and not bb["cleanup"]]
         eq_find = False
         for bb in bodies[A]["blocks"]:
